@@ -7,7 +7,9 @@
 #include <xenium/reclamation/quiescent_state_based.hpp>
 #include <xenium/reclamation/stamp_it.hpp>
 
+#include "gc_reclaimer.hpp"
 namespace rt {
+using GC = xvgc::gc;
 namespace r = xenium::reclamation;
 namespace p = xenium::policy;
 template <size_t K> using HPs = r::hazard_pointer<>::with<p::allocation_strategy<r::hp_allocation::static_strategy<K, 0, 0>>>;
